@@ -27,6 +27,18 @@ import (
 type Cmd struct {
 	Text string   `json:"text"`
 	Out  []string `json:"out"`
+	// Pad > 0: the command line is made this many bytes long (a from-file line longer than a
+	// scanner's default token)
+	Pad int `json:"pad,omitempty"`
+}
+
+// Full is the command line as sent.
+func (c Cmd) Full() string {
+	if c.Pad > len(c.Text)+1 {
+		return c.Text + " " + strings.Repeat("p", c.Pad-len(c.Text)-1)
+	}
+
+	return c.Text
 }
 
 // Case is one send with failure lists.
@@ -39,6 +51,10 @@ type Case struct {
 	Plan        []int    `json:"plan"`
 	ReadSize    int      `json:"read_size"`
 	ExplicitLvl bool     `json:"explicit_level"` // configs sent with an explicit privilege level
+	// After: one more single command on the same driver after the send, with its own
+	// operation-level list (possibly none): the list of the earlier operation is not in force any more
+	After       *Cmd     `json:"after,omitempty"`
+	AfterOpList []string `json:"after_op_list,omitempty"`
 }
 
 // (some with significant outer blanks: " error" is not contained in "crc-error 0")
@@ -77,6 +93,15 @@ func gen(t *rapid.T) Case {
 	pats := []*regexp.Regexp{execRe, confRe}
 	n := rapid.IntRange(1, 8).Draw(t, "nCmds")
 
+	// now and then a long list in which every answer holds a failure string
+	allFail := len(c.DriverList)+len(c.OpList) > 0 && rapid.IntRange(0, 9).Draw(t, "allFail") == 0
+	if allFail {
+		n = rapid.IntRange(9, 14).Draw(t, "nCmdsLong")
+	}
+
+	isFile := strings.HasSuffix(c.API, "file")
+	padAt := -1
+
 	if c.API == "gcmd" || c.API == "ncmd" {
 		n = rapid.IntRange(1, 3).Draw(t, "nCmds1")
 	}
@@ -94,11 +119,29 @@ func gen(t *rapid.T) Case {
 
 		cmd := Cmd{Text: sim.GenCommand(t)}
 
+		// lines a configuration file holds as well: remarks and macro lines
+		switch rapid.IntRange(0, 9).Draw(t, "lead") {
+		case 0:
+			cmd.Text = "!" + cmd.Text
+		case 1:
+			cmd.Text = "#" + cmd.Text
+		}
+
+		if isFile && padAt < 0 && rapid.IntRange(0, 19).Draw(t, "pad") == 0 {
+			padAt = i
+			cmd.Pad = rapid.SampledFrom([]int{65535, 65536, 65537, 70001, 140000}).Draw(t, "padTo")
+			c.ReadSize = 8192
+		}
+
 		nl := rapid.IntRange(0, 4).Draw(t, "nLines")
+		if allFail && nl == 0 {
+			nl = 1
+		}
+
 		for j := 0; j < nl; j++ {
 			line := sim.GenTextLine(t, 4)
 
-			if len(lists) > 0 && rapid.IntRange(0, 3).Draw(t, "plant") == 0 {
+			if len(lists) > 0 && (rapid.IntRange(0, 3).Draw(t, "plant") == 0 || (allFail && j == 0)) {
 				fs := rapid.SampledFrom(lists).Draw(t, "planted")
 				switch rapid.IntRange(0, 2).Draw(t, "plantPos") {
 				case 0:
@@ -115,6 +158,20 @@ func gen(t *rapid.T) Case {
 		}
 
 		c.Cmds = append(c.Cmds, cmd)
+	}
+
+	if rapid.IntRange(0, 3).Draw(t, "after") == 0 {
+		c.AfterOpList = genList(t, "afterOpList")
+		a := Cmd{Text: "after " + sim.GenCommand(t)}
+
+		line := sim.GenTextLine(t, 4)
+		if len(lists) > 0 {
+			line = line + " " + rapid.SampledFrom(lists).Draw(t, "afterPlanted")
+		}
+
+		line, _ = sim.MakeSafe(line, pats)
+		a.Out = []string{line}
+		c.After = &a
 	}
 
 	return c
@@ -156,11 +213,15 @@ func run(c Case) ev.Verdict {
 			return "", false
 		}
 
-		if idx < len(c.Cmds) && line == c.Cmds[idx].Text {
+		if idx < len(c.Cmds) && line == c.Cmds[idx].Full() {
 			out := sim.JoinLines(c.Cmds[idx].Out, "\r\n")
 			idx++
 
 			return out, false
+		}
+
+		if c.After != nil && line == c.After.Text {
+			return sim.JoinLines(c.After.Out, "\r\n"), false
 		}
 
 		return "% unexpected input" + "\r\n", false
@@ -195,7 +256,7 @@ func run(c Case) ev.Verdict {
 
 	cmds := make([]string, len(c.Cmds))
 	for i, cm := range c.Cmds {
-		cmds[i] = cm.Text
+		cmds[i] = cm.Full()
 	}
 
 	file := ""
@@ -219,6 +280,7 @@ func run(c Case) ev.Verdict {
 		collapsed *response.Response
 		err       error
 		wantMode  = "exec" // kept for the classes only
+		sendOne   func(string, ...util.Option) (*response.Response, error)
 	)
 
 	defer pipe.Release()
@@ -234,6 +296,8 @@ func run(c Case) ev.Verdict {
 		}
 
 		defer func() { _ = d.Close() }()
+
+		sendOne = d.SendCommand
 
 		switch c.API {
 		case "gcmd":
@@ -266,6 +330,8 @@ func run(c Case) ev.Verdict {
 		}
 
 		defer func() { _ = d.Close() }()
+
+		sendOne = d.SendCommand
 
 		if c.ExplicitLvl && c.API != "ncmds" && c.API != "ncmd" && c.API != "ncmdsfile" {
 			oo = append(oo, opoptions.WithPrivilegeLevel("configuration"))
@@ -462,6 +528,42 @@ func run(c Case) ev.Verdict {
 
 			rest = rest[j+len(want[i]):]
 		}
+	}
+
+	if c.After != nil {
+		var ao []util.Option
+
+		force := c.DriverList
+		if len(c.AfterOpList) > 0 {
+			ao = append(ao, opoptions.WithFailedWhenContains(c.AfterOpList))
+			force = c.AfterOpList
+		}
+
+		r, e := sendOne(c.After.Text, ao...)
+		if e != nil {
+			return ev.Fail("SendCommand after the %s: %v", c.API, e)
+		}
+
+		w := sim.NormOutput(c.After.Out)
+		if r.Result != w {
+			return ev.Fail("command after the %s: result %q, want %q", c.API, r.Result, w)
+		}
+
+		if (r.Failed != nil) != containsAny(w, force) {
+			return ev.Fail("command after the %s: Failed=%v but output %q vs failure strings in force %q (operation list %q, driver list %q; the earlier operation had %q)", c.API, r.Failed, w, force, c.AfterOpList, c.DriverList, c.OpList)
+		}
+
+		v.Classes = append(v.Classes, "second-send")
+	}
+
+	for _, cm := range c.Cmds {
+		if cm.Pad > 0 {
+			v.Classes = append(v.Classes, "file-line>64KiB")
+		}
+	}
+
+	if len(c.Cmds) > 10 && !c.StopOnFail {
+		v.Classes = append(v.Classes, "more-than-10-failures")
 	}
 
 	if firstFail >= 0 && firstFail < len(c.Cmds)-1 {
